@@ -398,6 +398,19 @@ pub fn limit_versions() -> Vec<String> {
             out.push(format!("1.2.3-rc.{}{}+{}{}.x", z, b, z, b));
         }
     }
+    // an oversized component followed by a multi-byte character at every small distance from the
+    // end (an error offset computed from the wrong length lands inside the character; C06-11)
+    for b in ["900719925474100", "18446744073709551616", "100000000000000000000"] {
+        for ch in ["é", "€", "𝟙"] {
+            for k in 0..=24usize {
+                let tail = "a".repeat(k);
+                out.push(format!("{}{}{}", b, ch, tail));
+                out.push(format!("1.{}{}{}", b, ch, tail));
+                out.push(format!("1.2.{} {}{}", b, ch, tail));
+                out.push(format!("{}.2.3{}{}", b, ch, tail));
+            }
+        }
+    }
     // identifier character classes: digit-led and mixed identifiers, upper case, zeros
     for id in ["0a", "a0", "00", "01", "010", "1e3", "0x10", "00a", "A", "Z", "aA", "RC", "rc", "0-", "-0", "0-0", "2-migration"] {
         out.push(format!("1.2.3-{}", id));
